@@ -2,7 +2,7 @@
 Oracle ops for the `arsh` family (L3 unmarshal model, C14).
 
 Encodings of types, values and trees: see `Model/GoVal.lean` (`GoWire`) and `Spec/Tree.lean`
-(`TreeWire`).  `<o>` is the option word: `0` default options, `1` UnmarshalArrayFromAnyLength.
+(`TreeWire`).  `<o>` is the unmarshal option word: bit 0 UnmarshalArrayFromAnyLength, bit 1 AllowDuplicateNames (`0` = default options).
 
     arsh zero <type>                          → <value>
     arsh wf <type>                            → 0|1
@@ -38,10 +38,10 @@ def resStr : Except Err GoVal → String
   | .ok v => "ok " ++ GoWire.renderVal v
   | .error e => errStr e
 
-def parseOpt : String → Option UOpts
-  | "0" => some { arrayAnyLen := false }
-  | "1" => some { arrayAnyLen := true }
-  | _ => none
+def parseOpt (s : String) : Option UOpts :=
+  match s.toNat? with
+  | some n => if n < 4 then some { arrayAnyLen := n % 2 == 1, allowDup := n / 2 == 1 } else none
+  | none => none
 
 def parseTrees : Nat → List String → Option (List JTree × List String)
   | 0, r => some ([], r)
